@@ -1028,18 +1028,18 @@ func main() {
 		d.searchCase("exh-glob-unordered", false, 1, dU, "dU", descU, qs)
 		d.searchCase("exh-glob-ordered", true, 1, dS, "dS", descS, qs)
 	}
+	kmpLen := tokLen - 2
+	if thorough {
+		kmpLen = tokLen - 1
+	}
 	w.Exhaust = true
 	w.Extra["exhaustive_scope"] = fmt.Sprintf("all patterns over {a,b,*} of length <= %d x all tokens over {a,b} of length <= %d "+
 		"x {unordered, ordered} provider; all sorted dictionaries over the 7 strings of length <= 2 in all block layouts x "+
 		"all patterns of length <= 3; all range end combinations over %d values; findSubstring for all patterns <= 4, strings <= %d; "+
 		"all sorted dictionaries over 8 multi-byte/invalid-UTF-8 values (<= 4, half of 5; thorough: all) in all block layouts x 30 byte-level hints",
-		patLen, tokLen, len(numberish), tokLen-2)
+		patLen, tokLen, len(numberish), kmpLen)
 
 	// (b) findSubstring / findSequence
-	kmpLen := tokLen - 2
-	if thorough {
-		kmpLen = tokLen - 1
-	}
 	for _, p := range allStrings("ab", 4)[1:] {
 		for _, s := range allStrings("ab", kmpLen) {
 			d.kmpCase("exh-kmp", s, p)
